@@ -156,7 +156,18 @@ pub fn run(ctx: &mut Ctx) {
             ctx.count("leading.words");
         }
         let sid = if r.bool() { Some(gen::opaque_min(r, 1, 32)) } else { None };
-        let ext = if r.bool() { Some(gen::opaque(r, 40)) } else { None };
+        // extension block: absent, opaque, or a well-formed list (incl. supported_versions naming ANOTHER version:
+        // the accessors must still report the structure's own fields)
+        let ext = match r.below(4) {
+            0 => None,
+            1 => Some(gen::opaque(r, 40)),
+            _ => {
+                let mut l = gen::ext_list(r, gen::TINY, 3);
+                let pos = r.usize(0, l.len());
+                l.insert(pos, if r.bool() { crate::refenc::AExt::SupportedVersionsServer(*r.pick(&[0x0304u16, 0x0303, 0x7f1c, 0x0301])) } else { crate::refenc::AExt::SupportedVersionsClient(vec![0x0304, 0x0303]) });
+                Some(crate::refenc::exts_bytes(&l))
+            }
+        };
         let ciphers: Vec<TlsCipherSuiteID> = gen::u16_list(r, 12).into_iter().map(TlsCipherSuiteID).collect();
         let comp: Vec<TlsCompressionID> = gen::opaque(r, 4).into_iter().map(TlsCompressionID).collect();
         let v = r.u16b();
